@@ -88,7 +88,7 @@ func PHash(h HashID, secret, seed []byte, n int) []byte {
 	out := make([]byte, 0, n+64)
 	a := seed // A(0)
 	for len(out) < n {
-		a = hmacSum(h.New(), secret, a)               // A(i)
+		a = hmacSum(h.New(), secret, a)                         // A(i)
 		out = append(out, hmacSum(h.New(), secret, a, seed)...) // HMAC(secret, A(i) + seed)
 	}
 	return out[:n]
